@@ -12,6 +12,7 @@
 //           ck:<i>           D_i.isTripped()
 //           pr:<i>:<k>       if (D_i.isTripped()) read datum k
 //           wt:<i>           poll D_i.isTripped() until it is true (bounded spinning, then a harness-level wait)
+//           fe:<k>           the client drops its own reference to explicit line e<k> (the line lives on in the objects built on it)
 //           w:<k>            write plain datum k (fresh value)     r:<k>  read plain datum k
 //   The prologue runs on the main thread (tid 0) before the logical threads start; after they have
 //   finished the main thread destroys every trigger still alive (ascending id), polls every detector
@@ -46,8 +47,13 @@ struct World {
 };
 
 std::string lname(const void* p) { return verif::name_of(p); }
-std::string tline(const TripWireTrigger& t) { return lname(t.lineTrigger.get()); }
-std::string dline(const TripWireDetector& d) { return lname(d.lineDetector.get()); }
+// harness peek at the line an object is bound to, whatever kind of pointer the tree under test keeps
+template <class T>
+T* raw_line(const std::shared_ptr<T>& p) { return p.get(); }
+template <class T>
+T* raw_line(const std::weak_ptr<T>& p) { return p.lock().get(); }
+std::string tline(const TripWireTrigger& t) { return lname(raw_line(t.lineTrigger)); }
+std::string dline(const TripWireDetector& d) { return lname(raw_line(d.lineDetector)); }
 
 // returns false when the text is not a line of this run (client error in the script)
 bool is_expl(const std::string& s, const World& w, size_t& k)
@@ -114,8 +120,8 @@ void do_op(World& w, const std::string& op)
                 verif::fail("client-error: unknown line " + src);
                 return;
             }
-            name_fresh(trig ? static_cast<const void*>(w.T[i]->lineTrigger.get())
-                            : static_cast<const void*>(w.D[i]->lineDetector.get()), src);
+            name_fresh(trig ? static_cast<const void*>(raw_line(w.T[i]->lineTrigger))
+                            : static_cast<const void*>(raw_line(w.D[i]->lineDetector)), src);
             verif::emit("ret " + nm + " " + (trig ? tline(*w.T[i]) : dline(*w.D[i])));
         }
         catch (const std::out_of_range&) {
@@ -172,8 +178,8 @@ void do_op(World& w, const std::string& op)
         bool v = false;
         for (int n = 0; n < 3 && !v; ++n) {
             if (n == 2) {
-                const auto* cell = w.D[i]->lineDetector.get();
-                verif::sched([cell] { return cell->raw() ? int(verif::EN) : int(verif::DIS); });
+                const auto* cell = raw_line(w.D[i]->lineDetector);
+                verif::sched([cell] { return (cell == nullptr || cell->raw()) ? int(verif::EN) : int(verif::DIS); });
             }
             verif::emit("call " + nm);
             v = w.D[i]->isTripped();
@@ -184,6 +190,12 @@ void do_op(World& w, const std::string& op)
         }
         if (!v) {
             verif::fail("isTripped() is false although the line has been tripped");
+        }
+    } else if (o == "fe") {
+        // the client gives up its OWN reference to explicit line k (objects built on it keep theirs); no trace event
+        size_t k = size_t(num(1));
+        if (k < w.expl.size()) {
+            w.expl[k].reset();
         }
     } else if (o == "w") {
         int k = num(1);
@@ -599,6 +611,10 @@ std::vector<Script> tw_directed()
         // move assignment: the target's old line (e0) is NOT tripped, the source's line (e1) is
         parse("2;mkT:0:e0,mkT:1:e1,mkD:0:e0,mkD:1:e1,as:0:1,rm:1,ck:0,ck:1,rm:0,ck:0,ck:1;mkD:2:e0,mkD:3:e1,ck:2,ck:3,ck:2,ck:3"),
         parse("1;mkT:0:e0,mkD:0:e0,as:0:0,ck:0,rm:0,ck:0"),
+        // lines whose creator keeps no reference of its own (fe): a line dropped by a move assignment is NOT tripped, its
+        // detectors keep answering false; a line whose last trigger is destroyed stays tripped and publishes
+        parse("2/mkT:0:e0.mkD:0:e0.mkT:1:e1.mkD:1:e1.fe:0.fe:1;as:0:1,ck:0,ck:1,rm:0,ck:0,ck:1;ck:0,ck:0,ck:1"),
+        parse("1/mkT:0:e0.mkD:0:e0.mkD:1:e0.fe:0;w:0,w:1,rm:0;wt:0,r:0,r:1;pr:1:0,pr:1:1,pr:1:0"),
         // every combination of empty / bound operands of move construction and move assignment
         parse("1;mkT:0:e0,mv:1:0,mv:2:0,as:0:2,as:0:1,mkT:3:e0,as:3:1,as:1:3,mkT:4:e0,as:4:1,rm:3,rm:2,rm:0,rm:4,rm:1;mkD:0:e0,ck:0,ck:0,ck:0,ck:0"),
         // publication: data written before the trigger dies, read after the line was seen tripped
